@@ -290,7 +290,7 @@ fn tier_count(prop: &str, thorough: bool) -> (u64, f64) {
         _ => 800_000,
     };
     if thorough {
-        (quick * 30, 1800.0)
+        (quick * 30, 900.0)
     } else {
         (quick, 300.0)
     }
